@@ -116,6 +116,8 @@ def call(e: Engine, n: ast.Call, st: State) -> SV:
     f = e.ev(n.func, st)
     if f.ty.kind == "obj" and e.static_class(st, f) == "Partial":
         return call_partial(e, st, f, [e.ev(a, st) for a in n.args])
+    if f.ty.kind == "obj" and e.reg.specs.get("apply_dynamic") is not None:
+        return e.reg.specs["apply_dynamic"](e, st, f, [e.ev(a, st) for a in n.args])
     if f.ty.kind != "func":
         raise Unsupported(f"call of non-function value {ast.unparse(n.func)}")
     tag = f.tag
@@ -173,6 +175,11 @@ def call(e: Engine, n: ast.Call, st: State) -> SV:
         allkw = dict(pkw)
         allkw.update(kw)
         return inline_nested(e, st, fn, args, allkw)
+    if kind == "dyn":
+        fn = e.reg.specs.get("apply_dynamic")
+        if fn is None:
+            raise Unsupported("call of a dynamically selected function without an apply_dynamic spec")
+        return fn(e, st, tag[1], args)
     if kind == "choice":
         # (f if c else g)(...): both callees by contract, results merged
         cnd, fa, fb = tag[1], tag[2], tag[3]
@@ -427,6 +434,10 @@ def builtin(e: Engine, st: State, name: str, args: List[SV], kw: Dict[str, SV], 
         return SV(Ty("small"), out)
     if name == "callable":
         a = args[0]
+        if a.ty.kind == "obj":
+            fn = e.reg.specs.get("is_callable")
+            if fn is not None:
+                return fn(e, st, a)
         return SV(BOOL, z3.BoolVal(a.ty.kind == "func")) if a.ty.kind in ("func", "str", "int") else SV(BOOL, z3.Bool(fresh_name("callable")))
     if name == "range":
         return range_(e, st, args)
